@@ -1,6 +1,7 @@
 """C16 — mesopore size distributions conserve volume and follow the Kelvin equation."""
 
 import math
+import os
 
 import numpy
 
@@ -11,7 +12,9 @@ LEVEL = "exploration"
 RULE = (
     "case = (method, pore geometry, meniscus geometry, thickness model, adsorbate property set, increasing relative-pressure "
     "grid with non-decreasing adsorbed liquid volume, pressure limits, branch); evaluations = identity checks on the returned "
-    "arrays (widths = 2(r_K+t) with an independently written Kelvin formula, monotone widths, zero-thickness volume "
+    "arrays (widths = 2(r_K+t) with an independently written Kelvin formula and independently written / independently read thickness "
+    "curves - the two tabulated models from a plain-text reading of their reference isotherms, with physical bounds outside the "
+    "tables -, monotone widths, zero-thickness volume "
     "conservation, distribution x width increments = volumes, cumulative end point, single-step single-peak) through "
     "psd_mesoporous and the low-level functions; distinct = (method, geometries, thickness, grid digest)"
 )
@@ -40,6 +43,9 @@ def gen_cases(tier, seed):
         yield {"kind": "psd", "seed": r.randrange(1 << 30), "shape": ["smooth", "stepped", "single-step", "smooth"][i % 4]}
     for i in range(40 if tier == "quick" else 3000):
         yield {"kind": "kelvin", "seed": r.randrange(1 << 30)}
+    # the tabulated thickness models around both ends of their tables (every run, whatever the seed)
+    for i in range(24 if tier == "quick" else 1200):
+        yield {"kind": "psd", "seed": r.randrange(1 << 30), "shape": ["smooth", "stepped"][i % 2], "tab": sorted(TABULATED)[i % 2], "end": ["high", "high", "low"][i % 3]}
 
 
 def run_case(case, ctx):
@@ -62,13 +68,80 @@ def _kelvin(p, meniscus, T, rho, M, gamma, kjs=False):
     return r + 0.3 if kjs else r
 
 
+TABULATED = {"SiO2 Jaroniec/Kruk/Olivier": "LiChrospher Si-1000 silica.csv", "carbon black Kruk/Jaroniec/Gadkaree": "Cabot BP280 carbon black.csv"}
+_TABLES = {}
+
+
+def _table(name):
+    """The reference isotherm behind a tabulated thickness model, read as plain text (not through the library's CSV parser):
+    relative pressures and statistical film thickness t = n / n_m * 0.354 nm."""
+    if name not in _TABLES:
+        import pygaps.data
+        path = os.path.join(os.path.dirname(pygaps.data.__file__), "stdiso", TABULATED[name])
+        mono, ps, ts, in_data = None, [], [], False
+        with open(path, encoding="utf-8") as f:
+            for line in f:
+                cells = line.strip().split(",")
+                if in_data:
+                    if len(cells) >= 2 and cells[0] not in ("", "pressure"):
+                        ps.append(float(cells[0]))
+                        ts.append(float(cells[1]))
+                elif cells[0].startswith("monolayer uptake"):
+                    mono = float(cells[1])
+                elif cells[0].startswith("data:"):
+                    in_data = True
+        ps, ts = numpy.array(ps), numpy.array(ts) / mono * 0.354
+        assert len(ps) > 20 and numpy.all(numpy.diff(ps) > 0) and numpy.all(numpy.diff(ts) >= 0)
+        _TABLES[name] = (ps, ts)
+    return _TABLES[name]
+
+
 def _thick(name, p):
     p = numpy.asarray(p, dtype=float)
     if name == "Halsey":
         return 0.354 * ((-5) / numpy.log(p))**0.333
     if name == "Harkins/Jura":
         return (0.1399 / (0.034 - numpy.log10(p)))**0.5
+    if name in TABULATED:
+        # inside the table: the piecewise-linear reading of the reference isotherm; outside it the film is that of the nearest
+        # end of the table above it and none below it (what the statement needs there is judged separately in _tabulated_ends)
+        ps, ts = _table(name)
+        return numpy.interp(p, ps, ts, left=0.0, right=ts[-1])
     return numpy.zeros_like(p)
+
+
+def _tabulated_ends(name, p, ctx):
+    """Outside its table a tabulated film thickness must stay physical: never thinner than the last tabulated film above the
+    table, never thicker than the first one (and never negative) below it, and not decreasing with pressure anywhere."""
+    from pygaps.characterisation.models_thickness import get_thickness_model
+    ps, ts = _table(name)
+    p = numpy.asarray(p, dtype=float)
+    got = _call(get_thickness_model(name), p)
+    if got[0] != "ok":
+        ctx.violation("thickness/%s/raises" % name, "tabulated thickness model raised on measured relative pressures", exc=got[1])
+        return False
+    t = numpy.asarray(got[1], dtype=float)
+    above, below, inside = p > ps[-1], p < ps[0], (p >= ps[0]) & (p <= ps[-1])
+    ctx.count("tabulated_thickness", "%s/inside" % name, int(inside.sum()))
+    ctx.count("tabulated_thickness", "%s/above-table-end" % name, int(above.sum()))
+    ctx.count("tabulated_thickness", "%s/below-table-start" % name, int(below.sum()))
+    ok = True
+    if t.shape != p.shape or not numpy.all(numpy.isfinite(t)):
+        ctx.violation("thickness/%s/shape-or-nan" % name, "tabulated thickness is not a finite value per pressure", got=t[:4])
+        return False
+    if inside.any() and not numpy.allclose(t[inside], numpy.interp(p[inside], ps, ts), rtol=1e-9, atol=1e-12):
+        ctx.violation("thickness/%s/inside-table" % name, "thickness inside the table is not the linear reading of the reference isotherm", p=p[inside][:3], got=t[inside][:3], expected=numpy.interp(p[inside], ps, ts)[:3])
+        ok = False
+    if above.any() and numpy.any(t[above] < ts[-1] * (1 - 1e-9)):
+        ctx.violation("thickness/%s/above-table-end" % name, "above the end of its table the film is thinner than the last tabulated film", p=p[above][:3], got=t[above][:3], last_tabulated=float(ts[-1]), table_end=float(ps[-1]))
+        ok = False
+    if below.any() and (numpy.any(t[below] < 0) or numpy.any(t[below] > ts[0] * (1 + 1e-9))):
+        ctx.violation("thickness/%s/below-table-start" % name, "below the start of its table the film is negative or thicker than the first tabulated film", p=p[below][:3], got=t[below][:3], first_tabulated=float(ts[0]))
+        ok = False
+    if numpy.any(numpy.diff(t[numpy.argsort(p, kind="stable")]) < -1e-12):
+        ctx.violation("thickness/%s/decreases" % name, "film thickness decreases with pressure", p=p[:4], got=t[:4])
+        ok = False
+    return ok
 
 
 def _adsorbate(r, seed):
@@ -93,7 +166,7 @@ def _run_psd(case, ctx):
     method = r.choice(["pygaps-DH", "BJH", "DH"])
     geom = r.choice(["slit", "cylinder", "sphere"]) if method == "pygaps-DH" else r.choice(["cylinder", "cylinder", "slit", "sphere"])
     meniscus = r.choice([None, "cylindrical", "hemispherical", "hemicylindrical"])
-    tname = r.choice(["Halsey", "Harkins/Jura", "zero thickness", "zero thickness"])
+    tname = r.choice(["Halsey", "Harkins/Jura", "zero thickness", "zero thickness", "SiO2 Jaroniec/Kruk/Olivier", "carbon black Kruk/Jaroniec/Gadkaree"])
     kname = r.choice(["Kelvin", "Kelvin", "Kelvin-KJS"])
     branch = r.choice(["ads", "des"])
     ads_name, props = _adsorbate(r, case["seed"] % 50)
@@ -116,6 +189,25 @@ def _run_psd(case, ctx):
         ctx.count("adsorbates", "backend-with-differing-tabulated-values/" + bk)
     n = r.choice([4, 5, 8, 20, 60]) if r.random() < 0.5 else r.randint(4, 80)
     p = numpy.array(gen.increasing(r, n, 0.02, 0.998, log=r.random() < 0.3))
+    if case.get("tab"):
+        tname = case["tab"]
+        if case["seed"] % 4 or case["end"] == "low":
+            # three in four with the method and Kelvin model that accept every geometry, so that the case is not refused
+            method, kname = "pygaps-DH", "Kelvin"
+        ps_tab = _table(tname)[0]
+        n = max(n, 8)
+        if case["end"] == "high":
+            # readings on both sides of the last tabulated pressure, two of them within 0.004 of it
+            e = float(ps_tab[-1])
+            k = n // 2
+            p = numpy.array(sorted(set([round(r.uniform(0.15, e - 0.005), 6) for _ in range(k)] + [round(e - r.uniform(0.0002, 0.002), 6), round(e + r.uniform(0.0002, 0.002), 6)] +
+                                       [round(r.uniform(e + 0.003, 0.9985), 6) for _ in range(n - k - 2)])))
+        else:
+            # an ultra-low-pressure scan that starts below the first tabulated pressure
+            e = float(ps_tab[0])
+            p = numpy.array(sorted(set([e * r.uniform(0.05, 0.95) for _ in range(3)] + [e * gen.log_uniform(r, 1.05, 1e5) for _ in range(n - 3)])))
+        n = len(p)
+        ctx.count("tabulated_cases", "%s/%s-end" % (tname, case["end"]))
     shape = case["shape"]
     if shape == "smooth":
         v = numpy.cumsum(numpy.abs(numpy.array([r.uniform(0.0, 1.0) for _ in range(n)]))) * 0.01 + 0.05
@@ -133,6 +225,8 @@ def _run_psd(case, ctx):
     ctx.count("volume_scale", "x%g" % vscale)
     # limits
     lim_kind = r.choice(["default", "none", "manual", "manual"])
+    if case.get("tab") and (lim_kind == "default" or case["end"] == "low"):
+        lim_kind = "none"
     if lim_kind == "default":
         lims = None
         lo_p, hi_p = 0.1, 0.99
@@ -218,6 +312,14 @@ def _run_psd(case, ctx):
         return
     rk = _kelvin(pu, men, T, rho, M, gamma, kjs=(kname == "Kelvin-KJS"))
     tt = _thick(tname, pu)
+    if tname in TABULATED:
+        if not _tabulated_ends(tname, pu, ctx):
+            return
+        ps_tab = _table(tname)[0]
+        outside = (pu > ps_tab[-1]) | (pu < ps_tab[0])
+        if outside.any():
+            # any continuation that stays within the physical bounds just judged is accepted outside the table
+            tt = numpy.where(outside, numpy.asarray(get_thickness_model(tname)(pu), dtype=float), tt)
     w_all = 2 * (rk + tt)
     widths = numpy.asarray(out["pore_widths"], dtype=float)
     vols = numpy.asarray(out["pore_volumes"], dtype=float)
@@ -317,6 +419,11 @@ def finalize(ctx):
         reasons.append("fewer than 15 method/geometry/thickness/kelvin configurations analysed (%d)" % len(cfg))
     if sum(ctx.tables.get("zero_thickness", {}).values()) < 30:
         reasons.append("zero-thickness conservation judged fewer than 30 times")
+    tab = ctx.tables.get("tabulated_thickness", {})
+    for name in TABULATED:
+        for where, least in (("inside", 50), ("above-table-end", 10), ("below-table-start", 3)):
+            if tab.get("%s/%s" % (name, where), 0) < least:
+                reasons.append("tabulated thickness %s judged fewer than %d times %s" % (name, least, where))
     if sum(ctx.tables.get("kelvin", {}).values()) < 100:
         reasons.append("Kelvin equation judged fewer than 100 times")
     for label, (hit, tot) in ctx.reach.items():
